@@ -24,19 +24,23 @@
    Retry (Model/Retry.v; budget and permanent codes from Gen/GenS3.v): transients within the budget are
      masked, a permanent / non-retryable error surfaces at once, max+1 transients raise after exactly
      max+1 attempts, a returned value or raised error is always the operation's own last outcome; every error on an
-     INDEPENDENT list of definitive S3 answers (access / credentials / bucket) surfaces with the attempt that met it.
+     INDEPENDENT list of definitive S3 answers (access / credentials / bucket / the request itself refused: taken from
+     the S3 error-code reference, not a subset of the library's table as found) surfaces with the attempt that met it.
    Faults inside histories (Model/BackendFault.v: the retry loop composed with every backend method as the source
      wraps it; a fault plan per operation, one entry per request, injected BEFORE or AFTER the request took effect):
      C20_s3_faulty_masks_partial -- for every history, prefix, page size and foreign objects, transient faults (at most
      max_retries per operation, at any request: the PUT that landed and was answered with an error, any page of a
      listing, get_size's HEAD or any ranged GET of an open_seekable reader) change no result, PROVIDED the request that
      would be the operation's last attempt (index max_retries) is answered and CAS writes are fault-free.
-     C20_s3_faulty_masks_full (the statement without the first proviso) is FALSE of the code as it is --
+     C20_s3_faulty_masks_full (the property's sentence: transient faults within the budget, NO proviso -- neither about
+     which request fails nor about CAS writes) is FALSE of the code as it is, for two independent reasons:
      C20_s3_faulty_masks_refuted: a not-found answer is retried like a transient error (C20_not_found_retried;
      C20_not_found_immediate_refuted) and uses up the budget, so ONE transient error on the (max_retries+1)-th request
-     of a read of a missing key surfaces instead of FileNotFoundError.  C20_cas_put_fault_surfaces: write_file_cas is
-     not under the retry, an error on its conditional PUT surfaces with that request (and the object is written when
-     the error came after the effect). *)
+     of a read of a missing key surfaces instead of FileNotFoundError;  C20_s3_faulty_masks_refuted_by_cas: write_file_cas
+     is not under the retry (C20_cas_put_fault_surfaces: an error on its conditional PUT surfaces with that request, and the
+     object is written when the error came after the effect).  Each proviso of _partial is needed on its own:
+     C20_s3_faulty_masks_modulo_cas_refuted (CAS fault-free only), C20_s3_faulty_masks_modulo_last_attempt_refuted (last
+     attempt answered only). *)
 From Coq Require Import List Bool Ascii String Arith ZArith QArith Lia.
 Require Import DS.Model.Str DS.Gen.GenS3 DS.Gen.GenRange DS.Model.Backend DS.Model.BackendTrace DS.Model.Range DS.Model.Retry DS.Model.Paged DS.Model.BackendFault.
 Require Import DS.Proofs.BackendProofs DS.Proofs.RangeProofs DS.Proofs.RetryProofs DS.Proofs.PagedProofs DS.Proofs.BackendFaultProofs.
@@ -169,8 +173,11 @@ Theorem C20_s3_retry_exhaust : forall (V : Type) (es : list exn) (e : exn) (rest
 Proof. exact @s3_retry_exhaust. Qed.
 Print Assumptions C20_s3_retry_exhaust.
 
-(* an error on the independent list of definitive S3 answers (Model/Retry.v definitive_codes: not authorised, wrong
-   credentials, no such bucket) surfaces with the attempt that met it, whatever transient errors preceded it *)
+(* an error on the independent list of definitive S3 answers (Model/Retry.v definitive_codes, from the S3 error-code
+   reference and not from the library's table: not authorised, wrong credentials, no such bucket, AND the request itself
+   refused -- InvalidArgument, InvalidRequest, InvalidURI, KeyTooLongError, InvalidRange, MethodNotAllowed) surfaces with the
+   attempt that met it, whatever transient errors preceded it.  The proof checks every code of the list against the
+   REGENERATED table: it holds only of a library whose table contains them all *)
 Theorem C20_s3_retry_definitive : forall (V : Type) (es : list exn) (e : exn) (rest : list (V + exn)),
   Forall transient_exn es -> List.length es <= gen_max_retries -> definitive e = true ->
   with_s3_retry (map inr es ++ inr e :: rest) = (Raised e, S (List.length es)).
@@ -184,15 +191,46 @@ Theorem C20_s3_faulty_masks_partial : forall (page : nat) (raw_prefix : str) (F 
 Proof. exact s3_faulty_masks_partial. Qed.
 Print Assumptions C20_s3_faulty_masks_partial.
 
-(* the property's statement -- transient faults within the budget, wherever they land -- is false of the code as it is *)
+(* the property's statement -- "transient S3 errors within the retry budget are masked without changing results": transient
+   faults, at most max_retries per operation, whichever operation (the CAS writer too) and whichever request they hit --
+   is false of the code as it is, for two independent reasons *)
 Definition C20_s3_faulty_masks_full : Prop :=
+  forall (page : nat) (raw_prefix : str) (F : bucket) (ops : list (op key)) (plans : list fplan),
+  foreign_ok (gen_init_prefix raw_prefix) F -> Forall wf_op ops -> plans_budget gen_max_retries plans ->
+  run_s3_f page raw_prefix F ops plans = map inl (run_spec ops).
+
+(* reason 1: a not-found answer is retried and uses up the budget (read of a key that holds nothing, one transient error
+   on request max_retries+1) *)
+Theorem C20_s3_faulty_masks_refuted : ~ C20_s3_faulty_masks_full.
+Proof. exact s3_faulty_masks_refuted. Qed.
+Print Assumptions C20_s3_faulty_masks_refuted.
+
+(* reason 2: write_file_cas is not under the retry (one transient error on its conditional PUT surfaces) *)
+Theorem C20_s3_faulty_masks_refuted_by_cas : ~ C20_s3_faulty_masks_full.
+Proof. exact s3_faulty_masks_refuted_by_cas. Qed.
+Print Assumptions C20_s3_faulty_masks_refuted_by_cas.
+
+(* C20_s3_faulty_masks_partial carries two provisos; with only ONE of them the statement is still false:
+   (a) CAS writes fault-free, no proviso about which request fails (the statement formerly called _full) *)
+Definition C20_s3_faulty_masks_full_modulo_cas : Prop :=
   forall (page : nat) (raw_prefix : str) (F : bucket) (ops : list (op key)) (plans : list fplan),
   foreign_ok (gen_init_prefix raw_prefix) F -> Forall wf_op ops -> plans_within gen_max_retries ops plans ->
   run_s3_f page raw_prefix F ops plans = map inl (run_spec ops).
 
-Theorem C20_s3_faulty_masks_refuted : ~ C20_s3_faulty_masks_full.
-Proof. exact s3_faulty_masks_refuted. Qed.
-Print Assumptions C20_s3_faulty_masks_refuted.
+Theorem C20_s3_faulty_masks_modulo_cas_refuted : ~ C20_s3_faulty_masks_full_modulo_cas.
+Proof. exact s3_faulty_masks_modulo_cas_refuted. Qed.
+Print Assumptions C20_s3_faulty_masks_modulo_cas_refuted.
+
+(* (b) the request with index max_retries of every operation answered, CAS writes treated like every other operation *)
+Definition C20_s3_faulty_masks_full_modulo_last_attempt : Prop :=
+  forall (page : nat) (raw_prefix : str) (F : bucket) (ops : list (op key)) (plans : list fplan),
+  foreign_ok (gen_init_prefix raw_prefix) F -> Forall wf_op ops -> plans_budget gen_max_retries plans ->
+  Forall (fun pl => nth gen_max_retries pl None = None) plans ->
+  run_s3_f page raw_prefix F ops plans = map inl (run_spec ops).
+
+Theorem C20_s3_faulty_masks_modulo_last_attempt_refuted : ~ C20_s3_faulty_masks_full_modulo_last_attempt.
+Proof. exact s3_faulty_masks_modulo_last_attempt_refuted. Qed.
+Print Assumptions C20_s3_faulty_masks_modulo_last_attempt_refuted.
 
 Theorem C20_not_found_retried : forall (page : nat) (pfx : str) (b : bucket) (p : str),
   has str_eqb (gen_get_s3_key pfx p) b = false ->
@@ -303,10 +341,28 @@ Proof. split; [apply plans_okb_sound; vm_compute; reflexivity|]. split; vm_compu
 (* the refutation's witness, spelled out: 5 answered requests, then one transient error *)
 Example C20_nonvacuous_refutation :
   plans_within gen_max_retries [Read (k "x")] [[None; None; None; None; None; Some (FBefore, slow)]]
+  /\ plans_budget gen_max_retries [[None; None; None; None; None; Some (FBefore, slow)]]
   /\ run_s3_f 2 [] [] [Read (k "x")] [[None; None; None; None; None; Some (FBefore, slow)]] = [inr slow]
   /\ run_spec [Read (k "x")] = [OErr NotFound]
-  /\ definitive (ClientError (lit "AccessDenied")) = true /\ definitive slow = false.
-Proof. split; [apply plans_withinb_sound; vm_compute; reflexivity|]. repeat split; vm_compute; reflexivity. Qed.
+  /\ definitive (ClientError (lit "AccessDenied")) = true /\ definitive (ClientError (lit "KeyTooLongError")) = true
+  /\ definitive slow = false /\ definitive (ClientError (lit "RequestTimeout")) = false /\ definitive (ClientError (lit "NoSuchKey")) = false.
+Proof.
+  split; [apply plans_withinb_sound; vm_compute; reflexivity|]. split; [apply plans_budgetb_sound; vm_compute; reflexivity|].
+  repeat split; vm_compute; reflexivity.
+Qed.
+
+(* the second witness: the CAS writer after a write of the same key, one transient error on the conditional PUT (plan within
+   the budget, the request with index max_retries answered): the error surfaces where the contract says the write succeeds *)
+Example C20_nonvacuous_refutation_cas :
+  plans_budget gen_max_retries [[]; [None; Some (FBefore, slow)]]
+  /\ Forall (fun pl => nth gen_max_retries pl None = None) [[]; [None; Some (FBefore, slow)]]
+  /\ ~ plans_within gen_max_retries [Write (k "x") (lit "old"); WriteCas (k "x") (lit "new")] [[]; [None; Some (FBefore, slow)]]
+  /\ run_s3_f 2 [] [] [Write (k "x") (lit "old"); WriteCas (k "x") (lit "new")] [[]; [None; Some (FBefore, slow)]] = [inl OUnit; inr slow]
+  /\ run_spec [Write (k "x") (lit "old"); WriteCas (k "x") (lit "new")] = [OUnit; OUnit].
+Proof.
+  split; [apply plans_budgetb_sound; vm_compute; reflexivity|]. split; [repeat constructor|].
+  split; [intros [_ [[_ [_ H]] _]]; vm_compute in H; discriminate H|]. split; vm_compute; reflexivity.
+Qed.
 
 (* the requests of write -> open_seekable+program -> delete -> open_seekable under prefix "wh/t1": one HEAD and one
    ranged GET (bytes 1-2 of the 3-byte object) for the first open; for the open after the delete only get_size's
